@@ -18,6 +18,7 @@ Definition dh_accept_group1_init := dh_accept reject_group1_init.
 Definition dh_accept_gex_init := dh_accept reject_gex_init.
 Definition dh_accept_gex_reply := dh_accept reject_gex_reply.
 Definition gex_group_accept (p : Z) : bool := negb (reject_gex_group p (bitlen p)).
+Definition gss_gex_group_accept (p : Z) : bool := negb (reject_gss_gex_group p (bitlen p)).
 Definition x25519_accept (secret : list Z) : bool := negb (reject_x25519 secret).
 
 (* K = pow(v, x, p) *)
@@ -49,7 +50,8 @@ Definition ec_accept (c : Z * Z * Z * Z) (sq : bool) (pt : list Z) : bool :=
 (* ---- handlers ----------------------------------------------------------------------------- *)
 (* what a handler run depends on: the peer value v read by get_mpint, the modulus p, the X25519
    shared secret, and the outcome of the two library validations (oracles) *)
-Record env := mkenv { e_v : Z; e_p : Z; e_secret : list Z; e_point_ok : bool; e_exch_ok : bool }.
+Record env := mkenv { e_v : Z; e_p : Z; e_secret : list Z; e_point_ok : bool; e_exch_ok : bool;
+                      e_gss_ok : bool }.
 
 Definition check_rejects (c : check) (en : env) : bool :=
   match c with
@@ -59,12 +61,18 @@ Definition check_rejects (c : check) (en : env) : bool :=
   | CkGexInit => reject_gex_init (e_v en) (e_p en)
   | CkGexReply => reject_gex_reply (e_v en) (e_p en)
   | CkX25519Zero => reject_x25519 (e_secret en)
+  | CkGssGroup1Complete => reject_gss_group1_complete (e_v en) (e_p en)
+  | CkGssGroup1Init => reject_gss_group1_init (e_v en) (e_p en)
+  | CkGssGexGroup => reject_gss_gex_group (e_p en) (bitlen (e_p en))
+  | CkGssGexInit => reject_gss_gex_init (e_v en) (e_p en)
+  | CkGssGexComplete => reject_gss_gex_complete (e_v en) (e_p en)
   end.
 
 Definition lib_ok (l : libcall) (en : env) : bool :=
   match l with
   | LFromPoint | LFromPublicBytes => e_point_ok en
   | LExchange => e_exch_ok en
+  | LGss => e_gss_ok en
   end.
 
 (* events emitted so far (in order) and how the handler ended; a failed `if ...: raise
@@ -106,7 +114,7 @@ Definition event_code (e : event) : Z :=
 Definition canon (r : list event * result unit) : list Z :=
   (match snd r with Ok _ => 0 | Raise e => exn_code e end) :: map event_code (fst r).
 
-Definition env0 : env := mkenv 0 0 [] true true.
+Definition env0 : env := mkenv 0 0 [] true true true.
 
 (* fixed group engines: (index into fixed_groups, role 0 = client/_reply 1 = server/_init, v) *)
 Definition run_fixed (c : Z * Z * Z) : list Z :=
@@ -115,20 +123,20 @@ Definition run_fixed (c : Z * Z * Z) : list Z :=
   | None => [-1]
   | Some (P, _) =>
       canon (run_steps (if role =? 0 then steps_group1_reply else steps_group1_init)
-                       (mkenv v P [] true true))
+                       (mkenv v P [] true true true))
   end.
 
 (* group exchange: (which 0 = group 1 = init 2 = reply, v, p) *)
 Definition run_gex (c : Z * Z * Z) : list Z :=
   let '(which, v, p) := c in
   canon (run_steps (if which =? 0 then steps_gex_group else if which =? 1 then steps_gex_init else steps_gex_reply)
-                   (mkenv v p [] true true)).
+                   (mkenv v p [] true true true)).
 
 (* curve25519: (role, length of the peer key, did the library's exchange succeed, secret) *)
 Definition run_x25519 (c : Z * Z * bool * list Z) : list Z :=
   let '(role, pklen, exch, secret) := c in
   canon (run_steps (if role =? 0 then steps_x25519_reply else steps_x25519_init)
-                   (mkenv 0 0 secret (pklen =? 32) exch)).
+                   (mkenv 0 0 secret (pklen =? 32) exch true)).
 
 (* NIST ECDH: (index into curves, role, residuosity oracle for compressed forms, encoded point);
    the point validation is ec_accept *)
@@ -138,5 +146,22 @@ Definition run_ec (c : Z * Z * bool * list Z) : list Z :=
   | None => [-1]
   | Some cv =>
       canon (run_steps (if role =? 0 then steps_ecdh_reply else steps_ecdh_init)
-                       (mkenv 0 0 [] (ec_accept cv sq pt) true))
+                       (mkenv 0 0 [] (ec_accept cv sq pt) true true))
   end.
+
+(* kex_gss.py PREFIXES (up to the first transport call):
+   (which: 0 = KexGSSGroup1/14 complete, 1 = KexGSSGroup1/14 init, 2 = gex group, 3 = gex init,
+    4 = gex complete; index into gss_fixed_groups for 0/1; v; p for 2..4) *)
+Definition run_gss (c : Z * Z * Z * Z) : list Z :=
+  let '(which, gi, v, p) := c in
+  if which <? 2 then
+    match nth_error gss_fixed_groups (Z.to_nat (Z.min gi 64)) with
+    | None => [-1]
+    | Some (P, _) =>
+        canon (run_steps (if which =? 0 then steps_gss_group1_complete else steps_gss_group1_init)
+                         (mkenv v P [] true true true))
+    end
+  else
+    canon (run_steps (if which =? 2 then steps_gss_gex_group
+                      else if which =? 3 then steps_gss_gex_init else steps_gss_gex_complete)
+                     (mkenv v p [] true true true)).
